@@ -185,7 +185,7 @@ Lemma node_ok_mla x : node_ok x -> fo_is_charloop (n_t x) || fo_is_charlazy (n_t
   node_ok (Parser.make_loop_atomic x).
 Proof.
   intros Hok Ht. destruct (fo_is_charloop (n_t x)) eqn:Eg.
-  { apply (node_ok_mla_greedy sets 15 eq_refl eq_refl eq_refl eq_refl); assumption. }
+  { apply (node_ok_mla_greedy sets 15 eq_refl eq_refl eq_refl); assumption. }
   cbn [orb] in Ht. destruct Hok as [Hwf Hs].
   destruct (wf_flags x Hwf) as (Har & Hset & Hlk & _ & _ & Hci & _).
   destruct x as [t o ch m n str st kids]. cbn [n_t n_kids n_set n_m n_n n_str n_o] in *.
@@ -276,7 +276,8 @@ Proof.
       { destruct Hok as [Hwf Hs]. destruct node as [t o ch m n str st kids]. cbn [set_kids n_kids n_t] in *. subst kids. split.
         - rewrite fo_wf_unfold in Hwf |- *. cbn [n_t n_kids n_set n_m n_n n_str n_o] in *.
           replace t with 25 in * by (unfold T_Concatenate in *; lia).
-          cbn [forallb length] in Hwf |- *. rewrite (proj1 Hob). cbn in Hwf |- *. exact Hwf.
+          cbn [forallb length] in Hwf |- *. rewrite (proj1 Hob). cbn in Hwf |- *.
+          destruct (length ks); cbn in Hwf |- *; [discriminate Hwf | exact Hwf].
         - cbn [FinalOptLeaf.sets_in] in Hs |- *. tauto. }
       split; [|exact I].
       rewrite (tr_concat sid (set_kids node _)) by (rewrite Ht'; unfold T_Concatenate in *; lia).
@@ -419,7 +420,7 @@ Proof.
   - rewrite (clr_same x (proj1 Hok) E). split; [exact Hok | apply rw_refines_refl].
 Qed.
 
-Lemma fo_loop_last_none nd k : fo_loop_last strict nd k = Ok None.
+Lemma fo_loop_last_none nd k : fo_loop_last (Z.testbit strict 3) strict nd k = Ok None.
 Proof. unfold fo_loop_last. rewrite Hs3. reflexivity. Qed.
 
 Lemma set_mn_fields x m n : n_t (set_mn x m n) = n_t x /\ n_o (set_mn x m n) = n_o x /\ n_m (set_mn x m n) = m /\
@@ -445,7 +446,7 @@ Lemma fo_ee_S f par node :
     let as_loop (nd : rnode) : res rnode :=
       if n_n nd =? 1 then first_kid false nd
       else
-        do r <- fo_loop_last strict nd (fun first lastc =>
+        do r <- fo_loop_last (Z.testbit strict 3) strict nd (fun first lastc =>
                   do b <- fo_cbma cat_in isw isew f strict lastc first [] false false false ;
                   if b then (do l' <- fo_ee cat_in isw isew f g strict true false lastc ; Ok (Some l')) else Ok None) ;
         match r with Some nd' => Ok nd' | None => Ok nd end in
@@ -685,7 +686,7 @@ Proof.
     assert (Hloop : forall nd, node_ok nd -> (n_t nd = T_Loop \/ n_t nd = T_Lazyloop) ->
               forall nd', (if n_n nd =? 1
                            then match n_kids nd with [] => Crash 53 | k :: ks => do k' <- fo_ee cat_in isw isew f g strict true false k ; Ok (set_kids nd (k' :: ks)) end
-                           else do r <- fo_loop_last strict nd (fun first lastc =>
+                           else do r <- fo_loop_last (Z.testbit strict 3) strict nd (fun first lastc =>
                                       do b <- fo_cbma cat_in isw isew f strict lastc first [] false false false ;
                                       if b then (do l' <- fo_ee cat_in isw isew f g strict true false lastc ; Ok (Some l')) else Ok None) ;
                                 match r with Some nd' => Ok nd' | None => Ok nd end) = Ok nd' ->
